@@ -13,30 +13,39 @@ def segments {α : Type} : List Nat → List α → List (List α)
 
 /-- the record count sent to the reader is never 0, the end-of-input marker. -/
 theorem line_cnt_pos (doc : List UInt8) : (describe doc).lines ≠ [] := by
-  sorry
+  exact PV.Lemmas.B64filter.describe_lines_ne doc
 
 /-- what the feeder sends for a document and what the reader rebuilds from the same lines is
     the document itself: empty documents, documents of newlines only, with or without a final
     newline, NUL bytes, CRs (uses `Gen.b64filterCollectStripCr = false`). -/
 theorem describe_reassemble (doc : List UInt8) :
     reassemble ((describe doc).lines.map stripCr) (describe doc).trailing = doc := by
-  sorry
+  exact PV.Lemmas.B64filter.describe_reassemble' doc
 
 /-- With an identity child every document is reproduced exactly: the output line for each
     input line is the canonical base64 of the same bytes (input may be padded or unpadded). -/
 theorem identity_child_exact (input docs : List (List UInt8)) (h : decodeAllDocs input = some docs) :
     run id input = some (docs.map encode) := by
-  sorry
+  unfold run
+  rw [h]
+  exact PV.Lemmas.B64filter.collect_exact docs
 
 /-- in particular canonical input is reproduced byte for byte. -/
 theorem identity_child_canonical (docs : List (List UInt8)) :
     run id (docs.map encode) = some (docs.map encode) := by
-  sorry
+  unfold run
+  rw [PV.Lemmas.B64filter.decodeAllDocs_encoded]
+  exact PV.Lemmas.B64filter.collect_exact docs
 
 /-- exactly one output line per input document, whatever the child. -/
 theorem one_line_per_doc (child : List (List UInt8) → List (List UInt8)) (input out : List (List UInt8))
     (h : run child input = some out) : out.length = input.length := by
-  sorry
+  unfold run at h
+  split at h
+  · cases h
+  · rename_i docs hd
+    rw [PV.Lemmas.B64filter.collect_length _ _ _ h, List.length_map,
+      PV.Lemmas.B64filter.decodeAllDocs_length _ _ hd]
 
 /-- No shift: for every line-preserving child, document i's output is built from exactly the
     child's answers to document i's lines — the answer stream is cut at the documents' own
@@ -48,7 +57,15 @@ theorem no_shift (child : List (List UInt8) → List (List UInt8))
       (((docs.map describe).zip
           (segments ((docs.map describe).map (·.lines.length)) (child ((docs.map describe).flatMap (·.lines))))).map
         (fun (d, seg) => encode (reassemble (seg.map stripCr) d.trailing))) := by
-  sorry
+  have hseg : ∀ (ns : List Nat) (xs : List (List UInt8)),
+      segments ns xs = PV.Lemmas.B64filter.segs ns xs := by
+    intro ns
+    induction ns with
+    | nil => intro xs; rfl
+    | cons n ns ih => intro xs; simp only [segments, PV.Lemmas.B64filter.segs, ih]
+  unfold run
+  rw [h, hseg]
+  exact PV.Lemmas.B64filter.collect_segs _ _ (by rw [hlen, List.length_flatMap])
 
 -- non-vacuity
 example : describe [] = ⟨[[]], false⟩ := by decide
